@@ -48,6 +48,8 @@ class End(Exception):
 
 
 def lex(s):
+    from vf.gen.features import decb_split
+    s = decb_split(s)  # reserved words are tokens wherever they occur (IFA=1THENPRINTB)
     toks = []
     pos = 0
     while pos < len(s):
